@@ -386,3 +386,36 @@ def real_callable(qual):
     for part in q.split("."):
         obj = getattr(obj, part)
     return obj
+
+
+class StabState(Item):
+    """graphiq.backends.stabilizer.state.Stabilizer wrapping a symbolic CliffordTableau"""
+
+    MOD = "graphiq.backends.stabilizer.state"
+
+    def __init__(self, tag="T"):
+        self.name = "state"
+        self.inner = Clifford(tag)
+
+    def symbolic(self, I):
+        o = Obj(I.get_class(self.MOD, "Stabilizer"))
+        o.fields["_tableau"] = self.inner.symbolic(I)
+        return o
+
+    def concrete(self, model, env):
+        return self.inner.concrete(model, env)
+
+    def random(self, rng, env):
+        return self.inner.random(rng, env)
+
+    def real(self, conc):
+        m = importlib.import_module(self.MOD)
+        return m.Stabilizer(self.inner.real(conc))
+
+    def const(self, I, conc):
+        o = Obj(I.get_class(self.MOD, "Stabilizer"))
+        o.fields["_tableau"] = self.inner.const(I, conc)
+        return o
+
+    def jsonable(self, conc):
+        return self.inner.jsonable(conc)
